@@ -15,6 +15,7 @@
 //!   D io error reading a part       F params shorter than 12    G/H/I collection-samples/-contigs/-details missing
 //!   J collection-samples has no part  K zstd::decode_all failed  L decoded length != metadata
 //!   M sample table: varint cut short  N string without NUL       U string not UTF-8
+//!   V sample table: 5-byte count exceeds u32 (since /repo 4d083e0; before: dev panic / release wrap)
 //!   P panic (caught)                ? an error message this harness does not know
 //!   O:<k>:<min_match_len>:<name hex>,<name hex>..   a handle; what list_samples() and the pub fields show
 //! after the tokens: ` ck=<0|1>` (1 = this binary traps on integer overflow: the dev profile), ` m=<largest single
@@ -115,6 +116,8 @@ fn code_of(msg: &str) -> char {
         'L'
     } else if msg.contains("Unexpected end of data while decoding") {
         'M'
+    } else if msg.contains("Invalid 5-byte varint") {
+        'V'
     } else if msg.contains("Null terminator not found in string") {
         'N'
     } else if msg.contains("Invalid UTF-8 in string") {
